@@ -5,6 +5,7 @@
 -/
 import RapidModel.Generated.Consts
 import RapidProofs.Shrink
+import RapidProofs.TranslatedEq
 
 namespace Rapid.C07
 
@@ -59,5 +60,9 @@ theorem seed_step_source : Rapid.Generated.src_seedStep = "seed += uint64(iter)"
 theorem jsf_constants_source :
     Rapid.Generated.jsf_initA = jsfInitA.toNat ∧ Rapid.Generated.jsf_rounds = jsfWarmRounds ∧
     Rapid.Generated.jsf_rotations = [7, 13, 37] := by decide
+
+/-- the seed of the next test case, translated from /repo's source on every run, is the model's -/
+theorem seed_step_translated (seed : UInt64) (iter : Nat) :
+    Translated.findBugSeedStep (Int64.ofNat iter) seed = seed + UInt64.ofNat iter := tr_findBugSeedStep seed iter
 
 end Rapid.C07
